@@ -435,9 +435,9 @@ Definition isdead (vs : list (option cont)) (x : nat) : bool :=
   match nth_error vs x with Some None => true | _ => false end.
 Definition kind_of (c : cont) : kind := match c with CA _ => KArray | CN n => ckind n end.
 
-(* what an argument refers to: a temporary the caller constructs from an integer, or an
-   existing instance *)
-Inductive rarg := RTmp (z : Z) | RRef (i : id).
+(* what an argument refers to: a temporary the caller constructs from an integer, an existing
+   instance, or a by-value parameter that the caller copy-constructs from an existing instance *)
+Inductive rarg := RTmp (z : Z) | RRef (i : id) | RCopy (i : id).
 
 Definition marg_key (vs : list (option cont)) (a : arg) : option rarg :=
   match a with
@@ -468,6 +468,7 @@ Definition with_arg {A} (r : rarg) (body : id -> M A) : M A :=
   match r with
   | RTmp z => t <- mk_val z ;; a <- body t ;; destroy t ;;; ret a
   | RRef i => body i
+  | RCopy i => t <- mk_copy i ;; a <- body t ;; destroy t ;;; ret a
   end.
 
 (* the insertion call with its argument temporaries: key first, value second *)
@@ -475,7 +476,11 @@ Definition nc_ins_args (n : nc) (p : pos) (rk rv : rarg) : M nc :=
   let k := ckind n in
   match k, rv with
   | KPoolList, RTmp z => nc_insert n PBack 0 (VInt z)     (* list.append<int>(z): T(z) is built in place *)
-  | KPoolList, RRef i => nc_insert n PBack 0 (VRef i)
+  | KPoolList, RRef i =>                                  (* list.append(v) deduces `template<typename A> append(A a)` with
+                                                             A = T: the parameter is a copy made by the caller, the item
+                                                             is built from it, the caller destroys it after the call *)
+      with_arg (RCopy i) (fun t => nc_insert n PBack 0 (VRef t))
+  | KPoolList, RCopy i => nc_insert n PBack 0 (VRef i)    (* not produced by `step` *)
   | _, _ =>
       with_arg rk (fun kr =>
         if val_default k then nc_insert n (ins_p k p) kr VDefault
